@@ -1,4 +1,4 @@
-use std::collections::{BTreeMap, HashMap, HashSet};
+use std::collections::{BTreeMap, HashSet};
 
 use crate::model::assets::CanonicalAssets;
 use crate::model::core::*;
@@ -448,7 +448,7 @@ where
     }
 }
 
-impl<T> Apply for HashMap<String, T>
+impl<T> Apply for BTreeMap<String, T>
 where
     T: Apply,
 {
